@@ -6,9 +6,10 @@ Code leg: Go Encode output (member order kept) vs model encode on exported trees
 model decode on mutated documents (error or the decoded tree), in the kernel.
 Search: Encode/Decode/DeepEqual modulo recovered positions and nil-vs-empty slices/byte-identical re-encode on the
 whole corpus in 5 variants incl. RecoverErrors trees, sub-nodes as root; Decode never panics on mutated JSON/bytes."""
+import os
 import re
 
-from vcheck import REPO, coq_list
+from vcheck import REPO, ROOT, coq_list
 from c14 import regen
 
 E_HDR = """From Verif Require Import Base.Str Syntax.Schema Syntax.TypedJson Gen.Schema Gen.Operators.
@@ -63,7 +64,7 @@ def run(ctx):
         ctx.broken.append(("gen:probe", "; ".join(info["probe_notes"][:8])))
     ctx.coq_props()
     n = 300 if ctx.tier == "quick" else 6000
-    rc, rows, err = ctx.jsonl([binp, "json", "-in", REPO, "-seed", str(ctx.seed), "-n", str(n), "-tier", ctx.tier], timeout=3000)
+    rc, rows, err = ctx.jsonl([binp, "json", "-in", REPO, "-seed", str(ctx.seed), "-n", str(n), "-tier", ctx.tier, os.path.join(ROOT, "corpus", "c15", "regress.jsonl")], timeout=3000)
     summ = [r for r in rows if "summary" in r]
     if rc != 0 or not summ:
         ctx.broken.append(("harness-run", "c15 json failed rc=%d %s" % (rc, err[-800:])))
